@@ -304,7 +304,11 @@ def run(tier, args):
             names += 1
             if got != iid:
                 chk.violation("alias-spelling:%s:%s" % (a, sp), "alias spelling '%s' of id %d (%s) resolves to id %d" % (sp, iid, canon.get((a, iid)), got), [a, iid, sp, got])
+    # typed emitter methods must emit the instruction they are named after
+    from vlib import typedemit
+    typed = typedemit.check(chk)
     chk.coverage.update({
+        "typed_emitter_methods": typed,
         "evaluations": n,
         "distinct_nontrivial": len(distinct),
         "rule": "one evaluation = one case validated directly and emitted with and without strict validation; distinct = (database form, mode) for form/excluded-mode cases and (database form, mutation kind, mode) for near-miss mutations; all are non-trivial (each compares three verdicts)",
